@@ -1,7 +1,10 @@
 package simrt
 
 import (
+	"context"
 	"encoding/json"
+	"errors"
+	"io"
 	"fmt"
 	"os"
 	"sort"
@@ -129,6 +132,12 @@ func (r *runner) merge(k *Kernel) {
 			r.res.Probes = map[string]int{}
 		}
 		r.res.Probes[f] += n
+	}
+	for p, n := range reachProbes(k) {
+		if r.res.Probes == nil {
+			r.res.Probes = map[string]int{}
+		}
+		r.res.Probes[p] += n
 	}
 	if r.cov.Interleavings == nil {
 		r.cov.Interleavings = map[string]int{}
@@ -295,4 +304,53 @@ func Main(t *testing.T) {
 		r.last = &FoundViolation{Violation: *v, Plan: p, LogHash: k.LogHash()}
 		rt.Fatalf("VIOLATION %s", v.String())
 	})
+}
+
+// reachProbes counts rare conditions this run actually reached (a probe stuck at zero
+// over a whole check means the workload or fault mix has to change).
+func reachProbes(k *Kernel) map[string]int {
+	out := map[string]int{}
+	for _, cn := range k.conns {
+		if cn.BodyErr != nil {
+			if errors.Is(cn.BodyErr, io.ErrUnexpectedEOF) {
+				out["unexpected_eof_at_binder"]++
+			}
+			if cn.BodyBytes == 0 {
+				out["read_error_before_first_byte"]++
+			}
+		}
+		switch cn.status {
+		case 301, 307, 308:
+			out["mux_redirect"]++
+		case 405:
+			out["mux_405"]++
+		case 404:
+			out["mux_404"]++
+		}
+		if cn.dup && cn.Dispatched > 0 {
+			out["dup_dispatched"]++
+		}
+		if cn.TSUnrouted {
+			out["ts_unrouted"]++
+		}
+	}
+	for _, c := range k.Calls {
+		if c.Err != nil && errors.Is(c.Err, context.DeadlineExceeded) {
+			out["client_deadline_fired"]++
+		}
+		if c.Err != nil && strings.Contains(c.Err.Error(), "Client.Timeout") {
+			out["client_timeout_fired"]++
+		}
+		if c.Hung {
+			out["call_blocked_forever_without_deadline"]++
+		}
+		if len(c.Conns) > 1 {
+			out["redirect_followed_or_dup"]++
+		}
+	}
+	if k.Race != nil {
+		out["accesses_checked"] += k.Race.Accs
+		out["sim_once_bodies_run"] += len(k.Race.onces)
+	}
+	return out
 }
